@@ -57,6 +57,9 @@ def gen(tier, seed):
     add("index_map", "c20-index-map", "index_map_rejected(a, b, c, d, e, f)", ["pre: " + " and ".join(("-2 <= %s <= 2" if (tier == "thorough" or v in "ab") else "-1 <= %s <= 1") % v for v in "abcdef")],
         "coarse-graining maps that break a documented rule (entry < -1, no group, a missing group index, a group mixing environments) are refused by coarsegrain_system and coarsegrain_grid (3x2x1 grid, three environment layouts, every map over " + ("[-2,2]^6" if tier == "thorough" else "[-2,2]^2 x [-1,1]^4") + ")",
         "a: int, b: int, c: int, d: int, e: int, f: int", viol="a coarse-graining map that violates the documented rules is accepted")
+    add("undeclared_species", "c20-undeclared-species", "undeclared_species_rejected(side, pos, form)", ["pre: 0 <= side <= 2 and 0 <= pos <= 2 and 0 <= form <= 1"],
+        "a network refuses reactions that name a species it does not declare - reactant side only, PRODUCT side only (also with coefficient 0), both sides - at any position of the reaction list, through the constructor and the dictionary reader",
+        "side: int, pos: int, form: int", viol="a reaction naming an undeclared species is accepted")
     for kind in ("index", "label", "object"):
         add("species_%s" % kind, "c20-unknown-species", "unknown_species_rejected(%r, sp)" % kind, ["pre: -3 <= sp <= 6"], "unknown species (%s form) raise and leave the state unchanged" % kind, "sp: int")
     for what in ("state", "state_array", "chemostats", "setter"):
